@@ -252,6 +252,26 @@ fn main() {
                     }
                 }
             }
+            // `^`: integral exponents of every size (beyond i32 / i64 conversions, both parities), negative
+            // bases, exact small powers; also as the operand of another operator and of a comparison
+            let bases = [-1.0, 1.0, -2.0, 2.0, -0.5, 0.5, 3.0, -3.0, 10.0, 0.0, -0.0, 4.0, 1024.0, f64::INFINITY, f64::NEG_INFINITY];
+            let exponents = [
+                2.0, 3.0, -1.0, -2.0, 10.0, 31.0, 32.0, 53.0, 63.0, 64.0, 1023.0, 1024.0, -1074.0, -1075.0,
+                2147483647.0, 2147483648.0, 2147483649.0, -2147483648.0, -2147483649.0, 4294967295.0,
+                4294967296.0, 4294967297.0, 9007199254740991.0, 9007199254740992.0, 1e300, -1e300,
+                f64::INFINITY, f64::NEG_INFINITY,
+            ];
+            for b in bases {
+                for e in exponents {
+                    let pow: Expression = BinaryExpression::new(BinaryOperator::Caret, num(b), num(e)).into();
+                    emit(&pow);
+                    if full || rng.chance(1, 6) {
+                        emit(&BinaryExpression::new(BinaryOperator::Equal, pow.clone(), num(1.0)).into());
+                        emit(&BinaryExpression::new(BinaryOperator::LowerThan, pow.clone(), num(0.0)).into());
+                        emit(&BinaryExpression::new(BinaryOperator::Concat, pow.clone(), string(b"")).into());
+                    }
+                }
+            }
             for _ in 0..n {
                 let d = 1 + rng.below(depth);
                 emit(&gen(&mut rng, d, &leaves));
